@@ -140,14 +140,14 @@ def generate(repo: pathlib.Path) -> str:  # noqa: C901  (one linear recipe)
         out.append(f"/-- {doc} -/\ndef {name} {params} : Int := {body}\n")
 
     # ---- Gap.contains
-    fn = find_method(buf, "Gap", "contains")
+    fn = find_method(buf, "Gap", "contains", like=[SK_CONTAINS])
     test = _if_tests(strip_doc(fn))[0].test
     expect(fn, {id(test): "c"}, [SK_CONTAINS], "Gap.contains")
     emit_prop("gapContains", "(start end_ timestamp : Int)",
               prop(test, {"self.start": "start", "self.end": "end_", "timestamp": "timestamp"}), "`Gap.contains`")
 
     # ---- normalize_timestamp
-    fn = find_method(buf, "OrderedRingBuffer", "normalize_timestamp")
+    fn = find_method(buf, "OrderedRingBuffer", "normalize_timestamp", like=[SK_NORMALIZE])
     test = _if_tests(strip_doc(fn))[0].test
     expect(fn, {id(test): "c"}, [SK_NORMALIZE], "normalize_timestamp")
     emit_prop("normRoundUp", "(remainder numSamples half : Int)",
@@ -157,7 +157,7 @@ def generate(repo: pathlib.Path) -> str:  # noqa: C901  (one linear recipe)
               "true division: rounded half-to-even to a microsecond)")
 
     # ---- update
-    fn = find_method(buf, "OrderedRingBuffer", "update")
+    fn = find_method(buf, "OrderedRingBuffer", "update", like=[SK_UPDATE])
     body = strip_doc(fn)
     rej = _if_tests(body)[0].test
     assigns = [s for s in body if isinstance(s, ast.Assign)]
@@ -169,10 +169,10 @@ def generate(repo: pathlib.Path) -> str:  # noqa: C901  (one linear recipe)
               "`update`: the sample is too old")
     emit_int("updNewest", "(selfNewest timestamp : Int)", tr(a_new.value, COMMON), "`update`: new `_timestamp_newest`")
     emit_int("updOldest", "(selfNewest fullRange period : Int)", tr(a_old.value, COMMON), "`update`: new `_timestamp_oldest`")
-    expect(find_method(buf, "OrderedRingBuffer", "has_value"), {}, [SK_HAS_VALUE], "has_value")
+    expect(find_method(buf, "OrderedRingBuffer", "has_value", like=[SK_HAS_VALUE]), {}, [SK_HAS_VALUE], "has_value")
 
     # ---- _update_gaps
-    fn = find_method(buf, "OrderedRingBuffer", "_update_gaps")
+    fn = find_method(buf, "OrderedRingBuffer", "_update_gaps", like=[SK_UPDATE_GAPS])
     body = strip_doc(fn)
     try:
         if_valid, if_missing = _if_tests(body)
@@ -200,10 +200,10 @@ def generate(repo: pathlib.Path) -> str:  # noqa: C901  (one linear recipe)
     emit_int("ugCreatedEnd", "(timestamp newest period : Int)", tr(kw(created_gap, "end"), ug), "end of the skipped range")
     emit_int("ugMissingStart", "(timestamp newest period : Int)", tr(start_gap, ug), "start of the gap recorded for a missing value")
     emit_int("ugMissingEnd", "(timestamp newest period : Int)", tr(kw(missing_gap, "end"), ug), "end of the gap recorded for a missing value")
-    expect(find_method(buf, "OrderedRingBuffer", "is_missing"), {}, [SK_IS_MISSING], "is_missing")
+    expect(find_method(buf, "OrderedRingBuffer", "is_missing", like=[SK_IS_MISSING]), {}, [SK_IS_MISSING], "is_missing")
 
     # ---- _cleanup_gaps
-    fn = find_method(buf, "OrderedRingBuffer", "_cleanup_gaps")
+    fn = find_method(buf, "OrderedRingBuffer", "_cleanup_gaps", like=[SK_CLEANUP])
     try:
         loop = next(s for s in strip_doc(fn) if isinstance(s, ast.While))
         chain = loop.body[-1]
@@ -231,7 +231,7 @@ def generate(repo: pathlib.Path) -> str:  # noqa: C901  (one linear recipe)
     emit_prop("clNeighbor", "(w1s w1e w2s w2e : Int)", prop(c4n, cl), "`_cleanup_gaps`: the next gap touches or overlaps this one")
 
     # ---- _remove_gap
-    fn = find_method(buf, "OrderedRingBuffer", "_remove_gap")
+    fn = find_method(buf, "OrderedRingBuffer", "_remove_gap", like=[SK_REMOVE])
     try:
         ifs = _if_tests(strip_doc(fn))
         main = ifs[1]
